@@ -59,7 +59,8 @@ theorem fact_dagTx :
       ["parseSigningAlgorithm", "parsePayload", "parseContentType", "parseSignatureParams", "parseSigningTime", "parseVersion",
        "parsePrevious", "parsePAL", "parseLamportClock"] ∧
     Facts.C17.parseSigningAlgorithmErrConds = ["!isAlgoAllowed(headers.Algorithm())"] ∧
-    "jws.Verify" ∈ Facts.C17.dagSignatureVerifierCalls ∧ "resolver.ResolvePublicKey" ∈ Facts.C17.dagSignatureVerifierCalls ∧
+    "jws.Verify" ∈ Facts.C17.dagSignatureVerifierCalls ∧ "jwx.AlgorithmFitsKey" ∈ Facts.C17.dagSignatureVerifierCalls ∧
+    Facts.C17.dagChecksAlgFit = true ∧ "resolver.ResolvePublicKey" ∈ Facts.C17.dagSignatureVerifierCalls ∧
     "transaction.SigningKey().Raw" ∈ Facts.C17.dagSignatureVerifierCalls := by decide
 
 set_option maxRecDepth 4000 in
@@ -89,7 +90,7 @@ theorem fact_jar_ldproof :
        "err := compareThumbprint(key, publicKey); err != nil"] ∧
     "cryptoNuts.ParseJWT" ∈ Facts.C17.jarValidateCalls ∧ "configuration.JWKs.LookupKeyID" ∈ Facts.C17.jarValidateCalls ∧
     Facts.C17.ldProofVerifyErrConds =
-      ["err != nil", "err != nil", "err != nil", "err != nil", "len(splittedJws) != 2", "err != nil",
+      ["err != nil", "err != nil", "err != nil", "err != nil", "!jwx.AlgorithmFitsKey(alg, key)", "len(splittedJws) != 2", "err != nil",
        "err = jswVerifier.Verify([]byte(challenge), sig, key); err != nil"] ∧
     "nutsCrypto.SignatureAlgorithm" ∈ Facts.C17.ldProofVerifyCalls ∧
     Facts.C17.vcJwtSignatureErrConds = ["err != nil", "at == nil", "err != nil", "keyID != \"\" && strings.Split(keyID, \"#\")[0] != issuer"] ∧
@@ -111,12 +112,12 @@ theorem fact_wiring :
     Facts.C17.dagSignatureVerifierInstalledIn = ["network/network.go"] := by decide
 
 set_option maxRecDepth 8000 in
-/-- crypto/jwx.AlgorithmFitsKey, verbatim (P-256 ↔ ES256, P-384 ↔ ES384, P-521 ↔ ES512; the harness's `fits` verdict is its own
+/-- crypto/jwx.AlgorithmFitsKey, verbatim (P-256 ↔ ES256, P-384 ↔ ES384, P-521 ↔ ES512; Ed25519 keys: EdDSA and 32 bytes; the harness's `fits` verdict is its own
     re-statement of RFC 7518 3.4); the bearer-token key loop counts a jwx-verified credential whose header algorithm does not fit
     the authorised key as NOT verified by that key (the harness's `verifies` verdict includes the fit) -/
 theorem fact_alg_fits_key :
     Facts.C17.algorithmFitsKeyBody =
-      "{ var curve string switch k := key.(type) { case *ecdsa.PublicKey: curve = k.Params().Name case ecdsa.PublicKey: curve = k.Params().Name case *ecdsa.PrivateKey: curve = k.Params().Name case jwk.ECDSAPublicKey: curve = k.Crv().String() case jwk.ECDSAPrivateKey: curve = k.Crv().String() default: return true } switch curve { case \"P-256\": return alg == jwa.ES256 case \"P-384\": return alg == jwa.ES384 case \"P-521\": return alg == jwa.ES512 default: return true } }" ∧
+      "{ var curve string switch k := key.(type) { case ed25519.PublicKey: return alg == jwa.EdDSA && len(k) == ed25519.PublicKeySize case *ed25519.PublicKey: return k != nil && alg == jwa.EdDSA && len(*k) == ed25519.PublicKeySize case jwk.OKPPublicKey: if k.Crv() == jwa.Ed25519 { return alg == jwa.EdDSA && len(k.X()) == ed25519.PublicKeySize } return true case *ecdsa.PublicKey: curve = k.Params().Name case ecdsa.PublicKey: curve = k.Params().Name case *ecdsa.PrivateKey: curve = k.Params().Name case jwk.ECDSAPublicKey: curve = k.Crv().String() case jwk.ECDSAPrivateKey: curve = k.Crv().String() default: return true } switch curve { case \"P-256\": return alg == jwa.ES256 case \"P-384\": return alg == jwa.ES384 case \"P-521\": return alg == jwa.ES512 default: return true } }" ∧
     Facts.C17.apiTokenKeyLoopFitTest =
       "err == nil && !credentialAlgorithmFitsKey(credential, authorizedKey) => { err = errors.New(\"signing algorithm does not fit the authorized key\") }" ∧
     "nutsJwx.AlgorithmFitsKey" ∈ Facts.C17.credentialAlgorithmFitsKeyCalls ∧ "cryptoPublicKey" ∈ Facts.C17.credentialAlgorithmFitsKeyCalls := by
@@ -187,7 +188,7 @@ def dagTxStmt : Prop :=
     dagTx Facts.C17.dagAllowedAlgs Facts.C17.dagRejectsPrivateJwk Facts.C17.dagStrictFraming E otherOK framingOK j = .accept vs →
     framingOK = true ∧
     Disciplined Facts.C17.dagAllowedAlgs j vs (fun s v =>
-      E.verifies v.key s.alg 0 = true ∧
+      E.verifies v.key s.alg 0 = true ∧ E.fits v.key s.alg = true ∧
       ((v.src = .embedded 0 ∧ E.embeddedKey 0 = some v.key ∧ s.jwk ≠ .absent ∧ s.kid = "") ∨
        (v.src = .resolver s.kid ∧ E.resolve s.kid = some v.key ∧ s.jwk = .absent ∧ s.kid ≠ "")) ∧
       s.jwk ≠ .priv)
@@ -196,19 +197,19 @@ def dagTxStmt : Prop :=
 theorem accept_dagTx_partial (rej strict : Bool) (E : Env) (otherOK framingOK : Bool) (j : Jws) (vs : List Verified)
     (h : dagTx Facts.C17.dagAllowedAlgs rej strict E otherOK framingOK j = .accept vs) :
     Disciplined Facts.C17.dagAllowedAlgs j vs (fun s v =>
-      E.verifies v.key s.alg 0 = true ∧
+      E.verifies v.key s.alg 0 = true ∧ E.fits v.key s.alg = true ∧
       ((v.src = .embedded 0 ∧ E.embeddedKey 0 = some v.key ∧ s.jwk ≠ .absent ∧ s.kid = "") ∨
        (v.src = .resolver s.kid ∧ E.resolve s.kid = some v.key ∧ s.jwk = .absent ∧ s.kid ≠ "")) ∧
       (rej = true → s.jwk ≠ .priv)) := by
-  obtain ⟨s, v, hs, hv, hidx, halg, hal, hov, hver, hsrc, hpriv, _⟩ := dagTx_accept h
-  exact ⟨s, v, hs, hv, hidx, halg, hal, allowed_lists_asymmetric.2.1 _ hal, hov, hver, hsrc, hpriv⟩
+  obtain ⟨s, v, hs, hv, hidx, halg, hal, hov, hver, hsrc, hpriv, _, hfit⟩ := dagTx_accept h
+  exact ⟨s, v, hs, hv, hidx, halg, hal, allowed_lists_asymmetric.2.1 _ hal, hov, hver, hfit, hsrc, hpriv⟩
 
 /-- the full statement holds as soon as the parser refuses embedded private keys (regenerated fact) -/
 theorem accept_dagTx_of_fact (hf : Facts.C17.dagRejectsPrivateJwk = true) : dagTxStmt := by
   intro E otherOK framingOK j vs h
-  obtain ⟨s, v, hs, hv, hidx, halg, hal, hasym, hov, hver, hsrc, hpriv⟩ := accept_dagTx_partial _ _ E otherOK framingOK j vs h
-  obtain ⟨_, _, _, _, _, _, _, _, _, _, _, hfr⟩ := dagTx_accept h
-  exact ⟨hfr fact_dagTx.2.1, s, v, hs, hv, hidx, halg, hal, hasym, hov, hver, hsrc, hpriv hf⟩
+  obtain ⟨s, v, hs, hv, hidx, halg, hal, hasym, hov, hver, hfit, hsrc, hpriv⟩ := accept_dagTx_partial _ _ E otherOK framingOK j vs h
+  obtain ⟨_, _, _, _, _, _, _, _, _, _, _, hfr, _⟩ := dagTx_accept h
+  exact ⟨hfr fact_dagTx.2.1, s, v, hs, hv, hidx, halg, hal, hasym, hov, hver, hfit, hsrc, hpriv hf⟩
 
 /-- the parser refuses a `jwk` header holding an ECDSA / RSA / OKP private key (type switch in parseSignatureParams) -/
 theorem fact_dag_rejects_private_jwk :
@@ -304,9 +305,9 @@ theorem accept_ldProof (L : LdEnv) (key : Key) (canon : Bool) (parts : Nat) (dec
     (hderive : ∀ k a, L.keyAlg k = some a → a ∈ Facts.C17.keyDerivedAlgs)
     (h : ldProofVerify L key canon parts dec = .accept vs) :
     ∃ v, vs = [v] ∧ v.key = key ∧ v.src = .caller ∧ L.keyAlg key = some v.alg ∧ v.alg ∉ symmetricOrNone ∧
-      L.verifiesDetached key v.alg = true ∧ parts = 2 := by
-  obtain ⟨alg, hv, hka, hver, hparts⟩ := ldProof_accept h
-  exact ⟨_, hv, rfl, rfl, hka, allowed_lists_asymmetric.2.2.2 _ (hderive _ _ hka), hver, hparts⟩
+      L.verifiesDetached key v.alg = true ∧ parts = 2 ∧ L.fits key v.alg = true := by
+  obtain ⟨alg, hv, hka, hver, hparts, hfit⟩ := ldProof_accept h
+  exact ⟨_, hv, rfl, rfl, hka, allowed_lists_asymmetric.2.2.2 _ (hderive _ _ hka), hver, hparts, hfit⟩
 
 /-- VC / VP with a JSON-LD proof (signature_verifier.jsonldProof): `proof` is a single object (a proof SET — an array, of any
     length — is refused: exactly one signature), the one verification is made with the key the resolver
